@@ -324,6 +324,15 @@ PROPS["C17"]["tables"] = {"quick": [{"types": [(24, True), (64, False), (192, Tr
                           "thorough": [{"types": [(8, False), (16, True), (24, True), (32, False), (64, True), (64, False), (96, True), (128, False), (192, True), (256, False)], "modes": BEH_MODES, "length": 40, "num": 150}]}
 PROPS["C01"]["tables"] = {"quick": [{"types": [(96, False), (128, True)], "modes": ["debug"], "length": 30, "num": 25}],
                           "thorough": [{"types": [(24, False), (64, True), (96, False), (128, True), (192, False), (256, True)], "modes": BEH_MODES, "length": 40, "num": 150}]}
+# the second-generation machine (division, powers, set_bit, shift-assign, print/parse and slice round trips, folds over the register
+# file): behaviours at other widths for the properties that own those steps; a check reports only the steps it owns
+for _p, _types, _modes in (("C02", [(88, False), (64, True)], ["debug"]), ("C03", [(40, True), (128, False)], ["debug"]),
+                           ("C04", [(16, True), (320, False)], BEH_MODES), ("C05", [(24, False), (96, True)], ["debug"]),
+                           ("C06", [(48, False), (136, False)], ["debug"]), ("C08", [(32, True), (72, False)], ["debug"]),
+                           ("C10", [(112, True)], ["debug"]), ("C11", [(56, True), (256, False)], ["debug"]),
+                           ("C15", [(120, True), (224, False)], ["debug"]), ("C16", [(64, False), (192, True)], ["debug"])):
+    PROPS[_p]["tables"] = {"quick": [{"types": _types, "modes": _modes, "length": 30, "num": 25}],
+                           "thorough": [{"types": _types + [(8, False), (16, True), (512, False)], "modes": BEH_MODES, "length": 40, "num": 150}]}
 # FromStr (a trait form of C17) must agree with from_str_radix(_, 10): the parse families record both forms
 PROPS["C17"]["extra"] = {"quick": [("text", "C10", [24, 64, 128])], "thorough": [("text", "C10", [8, 16, 24, 32, 64, 96, 128, 192, 256])]}
 PROPS["C17"]["mc"] = {"quick": [{"dir": "mc", "module": "MC_Machine.tla", "cfg": "MC_Machine_i4q.cfg", "workers": 6, "timeout": 1800}],
@@ -386,6 +395,41 @@ def gen_behaviours(chk, w, signed, mode, length, num, seed):
     return path, r["generated"], len(seen)
 
 
+def step_owners(kind, m):
+    """the properties that speak about one machine step (a mismatch at a step is reported only by a check that owns it;
+    the replayer resynchronises from the specification after any mismatch, so the rest of the behaviour is still judged)"""
+    own = set()
+    if kind in ("Assign", "ShAssign", "Fold") or m.startswith("op_") or m in ("min", "max"):
+        own.add("C17")          # operator / op-assign / iterator / Ord trait forms
+    if m.startswith("op_") or kind in ("Assign", "ShAssign"):
+        own.add("C04")          # operators panic per build mode
+    if m in ("wrapping_add", "wrapping_sub", "op_add", "op_sub", "saturating_add", "saturating_sub", "checked_add", "checked_sub", "midpoint",
+             "wrapping_neg", "op_neg", "op_abs", "wrapping_abs", "sum", "sum_ref"):
+        own.add("C01")
+    if m in ("wrapping_mul", "op_mul", "checked_mul", "saturating_mul", "product", "product_ref"):
+        own.add("C02")
+    if m in ("checked_div", "checked_rem", "op_div", "op_rem", "checked_div_euclid", "checked_rem_euclid"):
+        own.add("C03")
+    if kind in ("Sh", "ShAssign"):
+        own.add("C05")
+    if m in ("bitand", "bitor", "bitxor", "not", "swap_bytes", "reverse_bits", "wrapping_next_power_of_two") or kind == "SetBit":
+        own.add("C06")
+    if m in ("min", "max", "signum"):
+        own.add("C07")
+    if kind == "Pow":
+        own.add("C08")
+    if m in ("rt_str_radix", "rt_display_parse"):
+        own.update(("C10", "C11") if m == "rt_str_radix" else ("C10", "C12"))
+    if m in ("rt_radix_be", "rt_radix_le"):
+        own.update(("C10", "C11"))
+    if m in ("rt_be_slice", "rt_le_slice"):
+        own.add("C15")
+    if kind == "Load":
+        own.add("C13")          # from_digits
+    own.add("C16")              # every step runs on every digit type of the width
+    return own
+
+
 def run_table(tb, bins, prop, seed, tier, chk):
     """spec -> impl: replay TLC-generated machine behaviours into the real library"""
     import os, subprocess
@@ -408,6 +452,10 @@ def run_table(tb, bins, prop, seed, tier, chk):
             nm = 0
             for l in open(outp):
                 m = json.loads(l)
+                if prop not in step_owners(m["kind"], m["m"]):
+                    res["summary"].setdefault("mismatches_owned_by_other_properties", 0)
+                    res["summary"]["mismatches_owned_by_other_properties"] += 1
+                    continue
                 nm += 1
                 beh = behs_by_index(path, m["behaviour"])
                 st = beh["steps"][m["step"]]
